@@ -307,6 +307,46 @@ def _position_class(f, pos_bid, pos_idx, writers):
     return 'mixed'
 
 
+def text_setter_terminators(setter):
+    """Characters at which a copy loop over the second parameter of `setter` stops (the text it stores ends there)."""
+    if len(setter.params) < 2:
+        return set()
+    src = setter.params[1]
+    terms = set()
+    for b in setter.blocks.values():
+        c = (b.get('term') or {}).get('cond')
+        for x in walk(c) if c is not None else ():
+            if isinstance(x, dict) and x.get('k') == 'bin' and x.get('op') in ('!=', '=='):
+                for a, o in ((x.get('l'), x.get('r')), (x.get('r'), x.get('l'))):
+                    if isinstance(a, dict) and a.get('k') in ('idx', 'un') and root_var(a) is not None and is_var(root_var(a), src) and isinstance(const_of(o), int):
+                        terms.add(const_of(o))
+    return terms
+
+
+def setter_arg_missing(f, s, terms):
+    """For the call s = setter(req, text): the terminators that the dominating guards do NOT rule out for the first
+    character of `text` (empty list: the stored text is known to be non-empty); None if the argument has no
+    recognisable first character."""
+    a = s.ev['args'][1] if len(s.ev['args']) > 1 else None
+    if not isinstance(a, dict):
+        return None
+    if a.get('k') == 'bin' and a.get('op') == '+' and is_var(a.get('l')) and isinstance(const_of(a.get('r')), int):
+        base, off = a['l']['name'], const_of(a['r'])
+    elif is_var(a):
+        base, off = a['name'], 0
+    else:
+        return None
+
+    def first_char(e):
+        if not isinstance(e, dict):
+            return False
+        if e.get('k') == 'idx' and is_var(e.get('base'), base) and const_of(e.get('index')) == off:
+            return True
+        return e.get('k') == 'un' and e.get('op') == '*' and off == 0 and is_var(e.get('e'), base)
+    gs = f.guards(s.bid)
+    return [c for c in sorted(terms) if not any(first_char(g[0]) and ((g[1] == '!=' and const_of(g[2]) == c) or (g[1] == '==' and isinstance(const_of(g[2]), int) and const_of(g[2]) != c)) for g in gs)]
+
+
 def hard_hold_sites(P, R, rule):
     """Every holds++ / holds-- site carries one of the three transition signatures."""
     fw = FieldWrites(P)
@@ -347,6 +387,15 @@ def hard_hold_sites(P, R, rule):
                 elif isinstance(el, dict) and el.get('k') == 'idx' and is_field(el['base'], 'account') and const_of(el['index']) == 0 and const_of(err) == 0:
                     facts.append(('ACCT_NONEMPTY', eo == '!=', _position_class(f, bid, idx, acct_w)))
             fs = set(facts)
+            # the stamp is known to be non-empty after a setter call whose text starts with a character the setter keeps
+            if ('ACCT_NONEMPTY', True, 'after') not in fs:
+                for w in acct_w:
+                    if w.ev['k'] != 'call' or not (w.bid == s.bid and w.idx < s.idx or (w.bid != s.bid and f.dominates(w.bid, s.bid))):
+                        continue
+                    for t in P.callees(w, False):
+                        terms = text_setter_terminators(t)
+                        if terms and setter_arg_missing(f, w, terms) == []:
+                            fs.add(('ACCT_NONEMPTY', True, 'after'))
             take = {('HO', True, 'after'), ('HO', False, 'before')} <= fs and any(k == 'ACCT_NONEMPTY' and v is False and t in ('const', 'before') for k, v, t in fs)
             rel_mode = {('HO', False, 'after'), ('HO', True, 'before')} <= fs and any(k == 'ACCT_NONEMPTY' and v is False and t in ('const', 'before') for k, v, t in fs)
             rel_acct = (any(k == 'HO' and v is True and t in ('const', 'after') for k, v, t in fs)
